@@ -35,45 +35,63 @@ OutOK(o, shape) == /\ o.shape = shape
                    /\ IsIntSeq(o.re, -2000000000, 2000000000) /\ IsIntSeq(o.im, -2000000000, 2000000000)
 
 \* sampled_khatri_rao returns (rows of the product, the per-matrix indices, the row numbers)
-IndicesOK(c, e) ==
+IndicesOK(c, e, o) ==
     LET rows == SkipAt(c.rows, c.skip) IN
-    /\ Len(e.out.idx) = Len(rows)
-    /\ \A k \in 1..Len(rows) : Len(e.out.idx[k]) = c.ns /\ IsIntSeq(e.out.idx[k], 0, rows[k] - 1)
-    /\ (c.given => e.out.idx = e.in.idx)
+    /\ Len(o.idx) = Len(rows)
+    /\ \A k \in 1..Len(rows) : Len(o.idx[k]) = c.ns /\ IsIntSeq(o.idx[k], 0, rows[k] - 1)
+    /\ (c.given => o.idx = e.in.idx)
 
-Verdict(e) ==
-    IF ~ValidCfg(e.cfg) THEN "InDomain"
-    ELSE LET c == e.cfg IN
-    IF ~InputsOK(c, e.in) THEN "Inputs"
-    ELSE IF (e.out.kind = "raised") # Raises(c) THEN "Outcome"
+\* verdict on the result `o` of ONE call of event e (configuration and inputs already validated)
+CallVerdict(e, o) ==
+    LET c == e.cfg IN
+    IF (o.kind = "raised") # Raises(c) THEN "Outcome"
     ELSE IF Raises(c) THEN "ok"
-    ELSE IF ~e.out.exact THEN "Exact"
+    ELSE IF ~o.exact THEN "Exact"
     ELSE LET ts   == [k \in 1..Len(e.in.ts) |-> ToT(e.in.ts[k])]
              w    == IF HasW(c) THEN ToT(e.in.w) ELSE Ones(<<IF "R" \in DOMAIN c THEN c.R ELSE 1>>)
              mask == IF HasMask(c) THEN ToT(e.in.mask) ELSE Ones(IF c.op = "khatri_rao" THEN MaskShape(c) ELSE <<>>)
          IN
          IF c.op = "sampled_kr" THEN
-              IF ~IndicesOK(c, e) THEN "Indices"
-              ELSE LET exp == SampledKR(ts, e.out.idx, c.skip, c.ns) IN
-                   IF ~OutOK(e.out, exp.shape) THEN "Shape"
-                   ELSE IF ~Same(ToT(e.out), exp) THEN "Value"
-                   ELSE IF e.out.rows # SampledRows(ts, e.out.idx, c.skip, c.ns) THEN "Rows"
+              IF ~IndicesOK(c, e, o) THEN "Indices"
+              ELSE LET exp == SampledKR(ts, o.idx, c.skip, c.ns) IN
+                   IF ~OutOK(o, exp.shape) THEN "Shape"
+                   ELSE IF ~Same(ToT(o), exp) THEN "Value"
+                   \* reported row number = row-major rank of the drawn indices in the full product
+                   ELSE IF o.rows # SampledRows(ts, o.idx, c.skip, c.ns) THEN "Rows"
                    ELSE "ok"
          ELSE IF c.op = "tensordot" THEN
               \* output mode order: either documented reading (see Multilinear.Tensordot)
               LET expA == Expected(c, ts, w, mask)
                   t    == TD(c)
                   expB == Tensordot(ts[1], ts[2], t.m1, t.m2, t.b1, t.b2, TRUE) IN
-              IF ~(OutOK(e.out, expA.shape) \/ OutOK(e.out, expB.shape)) THEN "Shape"
-              ELSE IF ~(Same(ToT(e.out), expA) \/ Same(ToT(e.out), expB)) THEN "Value"
+              IF ~(OutOK(o, expA.shape) \/ OutOK(o, expB.shape)) THEN "Shape"
+              ELSE IF ~(Same(ToT(o), expA) \/ Same(ToT(o), expB)) THEN "Value"
               ELSE "ok"
          ELSE LET exp == Expected(c, ts, w, mask) IN
-              IF ~OutOK(e.out, exp.shape) THEN "Shape"
-              ELSE IF Same(ToT(e.out), exp) THEN "ok"
+              IF ~OutOK(o, exp.shape) THEN "Shape"
+              ELSE IF Same(ToT(o), exp) THEN "ok"
               \* "If one matrix only is given, that matrix is directly returned" (khatri_rao docstring):
               \* for a ONE-element list both readings are accepted (see the report / DESIGN F-02a)
-              ELSE IF c.op = "khatri_rao" /\ Len(c.rows) = 1 /\ Same(ToT(e.out), ts[1]) THEN "ok"
+              ELSE IF c.op = "khatri_rao" /\ Len(c.rows) = 1 /\ Same(ToT(o), ts[1]) THEN "ok"
               ELSE "Value"
+
+\* The operation is called cfg.rep times on the same argument objects; EVERY call must return the
+\* documented value.  The first call is checked against the formula; a later call of a deterministic
+\* operation is accepted iff it is identical to the first (hence satisfies the same clauses), and is
+\* checked on its own otherwise (sampled_kr draws fresh indices on every call).
+SameOut(a, b) == /\ a.kind = b.kind /\ a.exact = b.exact /\ a.shape = b.shape /\ a.re = b.re /\ a.im = b.im
+Verdict(e) ==
+    IF ~ValidCfg(e.cfg) THEN "InDomain"
+    ELSE LET c == e.cfg IN
+    IF ~InputsOK(c, e.in) THEN "Inputs"
+    ELSE IF Len(e.outs) # c.rep THEN "Calls"
+    ELSE LET v1 == CallVerdict(e, e.outs[1]) IN
+         IF v1 # "ok" THEN v1
+         ELSE LET later == {r \in 2..c.rep : IF c.op = "sampled_kr" THEN CallVerdict(e, e.outs[r]) # "ok"
+                                                                     ELSE ~SameOut(e.outs[r], e.outs[1])} IN
+              IF later = {} THEN "ok"
+              ELSE IF c.op = "sampled_kr" THEN CallVerdict(e, e.outs[CHOOSE r \in later : \A q \in later : r <= q])
+              ELSE "Repeat"
 
 TraceInit == i = 1 /\ cfg = NoCfg
 TraceNext == /\ i <= Len(Events)
